@@ -12,7 +12,17 @@ import vlib
 from checks import liftlib, proplib, interp
 
 CURVES = {"BN254": None, "BLS12_381": None, "GOLDILOCKS": None}
-HAND = [
+# every infix operator on operands that are truth values or field elements known at analysis time (a mechanical mutant of the boolean
+# connectives on two truth values survived until these were added: the generator rarely makes both sides of `&&` constant)
+BOOL_OPERANDS = ["(1 == 1)", "(1 == 2)", "(3 < 2)", "(2 < 3)", "1", "0", "5"]
+BOOL_OPS = ["&&", "||", "==", "!=", "<", ">", "<=", ">=", "+", "*", "-", "&", "|", "^"]
+BOOL_HAND = ["function f(c) { if (%s %s %s) { return 1; } return 2; }" % (a, op, b) for op in BOOL_OPS for a in BOOL_OPERANDS for b in BOOL_OPERANDS
+             if "==" in a or "<" in a or "==" in b or "<" in b] + \
+            ["function f(c) { if (!%s) { return 1; } return 2; }" % a for a in BOOL_OPERANDS] + \
+            ["function f(c) { var t = %s %s %s; var u = t ? 1 : 2; if (u == 1) { return 1; } return 2; }" % (a, op, b)
+             for op in ("&&", "||") for a in BOOL_OPERANDS[:4] for b in BOOL_OPERANDS[:4]]
+
+HAND = BOOL_HAND + [
     "function f(c) { var x; if (c) { x = 1; } if (x == 1) { return 1; } return 2; }",
     "function f(c) { var x = 0; if (c) { x = 1; } if (x == 1) { return 1; } return 2; }",
     "function f(c) { var x = 3; var y = x * 2 + 1; if (y == 7) { return 1; } return 2; }",
